@@ -272,4 +272,13 @@ theorem maskCoef_allowed (mc : Option Nat) (c : List (List Rat)) (i j : Nat) (hi
     ((maskCoef mc c).getD i []).getD j 0 = (c.getD i []).getD j 0 := by
   rw [maskCoef_entry mc c i j hi hj, h]; rfl
 
+theorem maskCoef_reshape_rect (a b : Nat) (mc : Option Nat) (coef : List Rat) :
+    ∀ row ∈ maskCoef mc (reshapeCoef a b coef), row.length = b + 1 := by
+  intro row hrow
+  unfold maskCoef at hrow
+  rw [List.mem_map] at hrow
+  obtain ⟨i, hi, rfl⟩ := hrow
+  rw [List.mem_range, reshapeCoef_length] at hi
+  rw [List.length_map, List.length_range, reshapeCoef_row a b coef i hi, List.length_map, List.length_range]
+
 end PbVerif.Lemmas
